@@ -101,6 +101,16 @@ type Cfg struct {
 	Metakill bool      `json:"metakill"`
 	Hcfg     []HistCfg `json:"hcfg"`
 	Users    []User    `json:"users"`
+	Authz    []Rule    `json:"authz"`
+	Lauthz   bool      `json:"lauthz"`
+}
+
+// Rule is one authorizer rule: message type, sender class ("any", "local",
+// "remote" or an authrole) and decision ("allow", "deny", "fail", "rewrite").
+type Rule struct {
+	Mt  string `json:"mt"`
+	Who string `json:"who"`
+	Dec string `json:"dec"`
 }
 
 // Scenario is one TLC-generated behaviour reduced to its inputs.
@@ -111,6 +121,9 @@ type Scenario struct {
 	// Epilogue: after the steps every live session leaves, the clock is
 	// advanced by two hours and a snapshot is taken (C05).
 	Epilogue bool `json:"epilogue"`
+	// Poison: in-process recipients overwrite details and payload of every
+	// EVENT/INVOCATION they received (C12: private copies).
+	Poison bool `json:"poison"`
 }
 
 // Msg is a received message under the abstraction alpha (DESIGN 2.5).
